@@ -138,15 +138,17 @@ func q(b []byte) string {
 	if len(b) <= 48 {
 		return fmt.Sprintf("%q", b)
 	}
-	return fmt.Sprintf("%q...(%d bytes)", b[:24], len(b))
+	return fmt.Sprintf("%q...", b[:24])
 }
+
+func qn(b []byte) string { return fmt.Sprintf("%s (%d bytes)", q(b), len(b)) }
 
 func descPkt(p pkt) string {
 	k := "text"
 	if p.Binary {
 		k = "binary"
 	}
-	return fmt.Sprintf("%s %s packet, data %s", k, typeNames[p.Type], q(p.Data))
+	return fmt.Sprintf("%s %s packet, data %s", k, typeNames[p.Type], qn(p.Data))
 }
 
 func diffPkt(got *parser.Packet, want pkt) string {
@@ -161,7 +163,7 @@ func diffPkt(got *parser.Packet, want pkt) string {
 		d = append(d, fmt.Sprintf("IsBinary %v, sent %v", got.IsBinary, want.Binary))
 	}
 	if !bytes.Equal(got.Data, want.Data) {
-		d = append(d, fmt.Sprintf("data %s (%d bytes), sent %s (%d bytes)", q(got.Data), len(got.Data), q(want.Data), len(want.Data)))
+		d = append(d, fmt.Sprintf("data %s, sent %s", qn(got.Data), qn(want.Data)))
 	}
 	return strings.Join(d, "; ")
 }
@@ -320,9 +322,26 @@ var packetKinds = []pkt{{0, false, nil}, {1, false, nil}, {2, false, nil}, {3, f
 
 var patternLens = []int{3, 57, 58, 59, 1000}
 
-func partPackets(c *collector) (stats, int) {
+func partPackets(c *collector, tier string) (stats, int) {
 	const groups = 257 // 0: empty, all 1-byte payloads, pattern lengths; g>0: 2-byte payloads starting with g-1
-	return parallel(len(packetKinds)*groups, func(chunk int, st *stats) {
+	base := len(packetKinds) * groups
+	extra := 0
+	if tier == "thorough" {
+		extra = 256 // binary message, base64 mode: every 3-byte payload (every complete base64 quantum), by first byte
+	}
+	p3 := pattern(3, false)
+	return parallel(base+extra, func(chunk int, st *stats) {
+		if chunk >= base {
+			a := byte(chunk - base)
+			for x := 0; x < 65536; x++ {
+				d := []byte{a, byte(x >> 8), byte(x)}
+				if bytes.Equal(d, p3) {
+					continue // already run as the pattern payload of length 3
+				}
+				checkPacket(c, pkt{4, true, d}, false, st)
+			}
+			return
+		}
 		k := packetKinds[chunk/groups]
 		g := chunk % groups
 		run := func(data []byte) {
@@ -370,7 +389,16 @@ func jsonStrings(l []string) string {
 func checkHandshake(c *collector, h hsCase, st *stats) {
 	st.evals++
 	st.nontriv++
+	failed := false
+	defer func() {
+		if failed {
+			st.out("violation")
+		} else {
+			st.out("ok")
+		}
+	}()
 	fail := func(class, msg string) {
+		failed = true
 		hc := h
 		c.add("handshake/"+class, len(h.SID)+len(h.Upgrades), fmt.Sprintf("handshake %+v: %s", h, msg), rcase{Part: "handshake", Handshake: &hc})
 	}
@@ -565,15 +593,21 @@ func partPayloads(c *collector, maxN int) (stats, int) {
 
 var compositions = []string{"server", "server-chunked", "client"}
 
-// chunkReader delivers at most n bytes per Read, as a QUIC stream delivers a long frame.
+// chunkReader delivers a stream in pieces, as a QUIC stream does: the first `single` reads return one
+// byte each (so every header byte arrives alone), later reads at most n bytes.
 type chunkReader struct {
-	r io.Reader
-	n int
+	r         io.Reader
+	single, n int
 }
 
 func (c *chunkReader) Read(p []byte) (int, error) {
-	if len(p) > c.n {
-		p = p[:c.n]
+	max := c.n
+	if c.single > 0 {
+		c.single--
+		max = 1
+	}
+	if len(p) > max {
+		p = p[:max]
 	}
 	return c.r.Read(p)
 }
@@ -586,7 +620,7 @@ func frameReader(comp string, stream []byte) func() (*parser.Packet, error) {
 	case "client":
 		return func() (*parser.Packet, error) { return wt.VerifClientNextPacket(rd) }
 	case "server-chunked":
-		rd = &chunkReader{rd, 1021}
+		rd = &chunkReader{rd, 12, 1021}
 	}
 	return wt.VerifNewServerReader(rd, defaultMaxBufferSize).NextPacket
 }
@@ -651,7 +685,7 @@ func checkFrame(c *collector, L int, bin bool, typ int, st *stats) {
 			case !bytes.Equal(frame[:hl], wantH):
 				fail("header/length-value", fmt.Sprintf("send wrote header %x, the protocol prescribes %x", frame[:hl], wantH))
 			default:
-				fail("body", fmt.Sprintf("send wrote %d bytes after the header (%s), the protocol prescribes %d (%s)", len(frame)-hl, q(frame[hl:]), len(want)-hl, q(want[hl:])))
+				fail("body", fmt.Sprintf("send wrote %s after the header, the protocol prescribes %s", qn(frame[hl:]), qn(want[hl:])))
 			}
 		}
 		// what the library wrote (then what the protocol prescribes, if different), followed by a
@@ -1030,8 +1064,8 @@ func main() {
 
 	r := vx.NewReport("C11", *tier, "exploration")
 	r.Rule = "exhaustive product enumeration, each case checked against reference encoders written from the Engine.IO v4 protocol text: " +
-		"(packet) 7 text types + binary message x every payload of length <= 2 over 256 byte values (text: without 0x1e) and pattern payloads of length 3/57/58/59/1000 x {binary supported, base64}; " +
-		"(handshake) OPEN bodies; (payload) every sequence of 0..N packets over a 13-packet alphabet; (wt) every frame length in the tier's set x {binary, text} through send and nextPacket in the server (limited reader, whole and 1021-byte chunks) and client compositions, each followed by a second frame; " +
+		"(packet) 7 text types + binary message x every payload of length <= 2 over 256 byte values (text: without 0x1e) and pattern payloads of length 3/57/58/59/1000 x {binary supported, base64} (thorough: binary in base64 mode also every payload of length 3); " +
+		"(handshake) OPEN bodies; (payload) every sequence of 0..N packets over a 13-packet alphabet; (wt) every frame length in the tier's set x {binary, text} through send and nextPacket in the server (limited reader, delivered whole and in pieces: 12 single bytes, then 1021-byte chunks) and client compositions, each followed by a second frame; " +
 		"(arbitrary) every byte string of length <= 2, length 3 (thorough: all, quick: every 251st) and 'b' + base64-directed strings into every decoder; (alloc) frame headers declaring more than the limit, in a memory-capped subprocess. " +
 		"Every case is generated once (distinct by construction); distinct_nontrivial counts the cases with a non-empty payload (packet), >= 2 packets (payload), frame length >= 1 (wt), non-empty input (arbitrary), and all handshake and alloc cases"
 	r.Assumptions = []string{
@@ -1088,8 +1122,12 @@ func main() {
 	}()
 
 	if want("packet") {
-		st, sk := partPackets(c)
-		account("packet", st, sk, map[string]any{"payloads": "all of length 0,1,2 over 256 values + pattern lengths 3,57,58,59,1000", "modes": []string{"supportsBinary", "base64"}})
+		st, sk := partPackets(c, *tier)
+		pl := "all of length 0,1,2 over 256 values + pattern lengths 3,57,58,59,1000"
+		if *tier == "thorough" {
+			pl += "; binary message in base64 mode also with every payload of length 3"
+		}
+		account("packet", st, sk, map[string]any{"payloads": pl, "modes": []string{"supportsBinary", "base64"}})
 		r.Sample(map[string]any{"part": "packet", "packet": descPkt(pkt{4, true, []byte{0x00, 0xff}}), "supports_binary": false, "protocol_bytes": string(refPacket(pkt{4, true, []byte{0x00, 0xff}}, false))})
 	}
 	if want("handshake") {
